@@ -380,6 +380,112 @@ def _construct(fn, n):
     return None
 
 
+# ------------------------------------------------------------------------------------------------ rank-dispatching functions
+# (module, function) -> (batch parameter, rank of a single item)          [docstrings: "2d or greater rank array of imgs"]
+DISPATCH = {
+    ("aotools.image_processing.centroiders", "centre_of_gravity"): ("img", 2),
+    ("aotools.image_processing.centroiders", "brightest_pixel"): ("img", 2),
+    ("aotools.image_processing.centroiders", "correlation_centroid"): ("im", 2),
+    ("aotools.interpolation", "binImgs"): ("data", 2),
+}
+FULL_REDUCERS = ("sum", "mean", "std", "var", "max", "min", "prod", "ptp", "median", "argmax", "argmin", "amax", "amin",
+                 "nansum", "nanmean", "nanmax", "nanmin", "average")
+
+
+def check_dispatch(rep, ix):
+    """P3.per-item-reductions: in a function that accepts one item or a stack of items, a reduction of the (possibly stacked)
+    argument over *all* axes mixes the items of a stack; it is allowed only where the code has established that the argument
+    is a single item (inside `if p.ndim == r` / `len(p.shape) == r`), on one item selected from the stack (p[k]), or as the
+    never-binding upper bound of clip(x, lo, x.max())."""
+    n = 0
+    for (mod, name), (param, r_single) in sorted(DISPATCH.items()):
+        m = ix.modules.get(mod)
+        f = m.funcs.get(name) if m else None
+        if f is None:
+            raise AnalysisError("C20.P3: stack-accepting function %s:%s vanished (table in sa/props/c20_batch.py)" % (mod, name))
+        if param not in f.params:
+            raise AnalysisError("C20.P3: %s has no parameter %s" % (f.fq, param))
+        fn = _Fn(ix, f, [param])
+        bad = []
+
+        def rank_test(test):
+            """(asserts single-item rank?, asserts another rank?) for `len(p.shape) == k` / `p.ndim == k`"""
+            if isinstance(test, ast.Compare) and len(test.ops) == 1 and isinstance(test.ops[0], (ast.Eq, ast.NotEq)):
+                l, r_ = test.left, test.comparators[0]
+                if isinstance(l, ast.Constant):
+                    l, r_ = r_, l
+                if isinstance(l, ast.Name) and l.id in fn.single and len(fn.single[l.id]) == 1:
+                    l = fn.single[l.id][0]          # n_dims = p.ndim; if n_dims == 2: ...
+                txt = norm_text(l).replace(" ", "")
+                is_rank = txt in ("len(%s.shape)" % param, "%s.ndim" % param, "numpy.ndim(%s)" % param) or \
+                    any(txt in ("len(%s.shape)" % t, "%s.ndim" % t) for t in fn.taint)
+                if is_rank and isinstance(r_, ast.Constant) and isinstance(r_.value, int):
+                    eq = isinstance(test.ops[0], ast.Eq)
+                    return (eq and r_.value == r_single), (eq and r_.value != r_single)
+            return False, False
+
+        def expr_constructs(expr, single):
+            if single:
+                return
+            clip_bounds = set()
+            for c in ast.walk(expr):
+                if isinstance(c, ast.Call) and isinstance(c.func, ast.Attribute) and c.func.attr == "clip":
+                    args = c.args if not _is_module_chain(c.func.value) else c.args[1:]
+                    if len(args) >= 2:
+                        for x in ast.walk(args[1]):
+                            clip_bounds.add(id(x))
+            for c in ast.walk(expr):
+                if not (isinstance(c, ast.Call) and isinstance(c.func, ast.Attribute) and c.func.attr in FULL_REDUCERS):
+                    continue
+                if id(c) in clip_bounds and c.func.attr in ("max", "amax"):
+                    continue
+                recv = c.func.value
+                if _is_module_chain(recv):
+                    arr = c.args[0] if c.args else None
+                    rest = c.args[1:]
+                else:
+                    arr, rest = recv, c.args
+                if arr is None or not fn.tainted(arr):
+                    continue
+                # one item selected from the stack: p[k] / p[k, ...]
+                if isinstance(arr, ast.Subscript) and not isinstance(arr.slice, (ast.Slice, ast.Tuple)):
+                    continue
+                has_axis = bool(rest) or any(k.arg in ("axis", "axes") and not (isinstance(k.value, ast.Constant) and k.value.value is None)
+                                             for k in c.keywords)
+                if not has_axis:
+                    bad.append(c)
+
+        def block(stmts, single):
+            for st in stmts:
+                if isinstance(st, ast.If):
+                    expr_constructs(st.test, single)
+                    s1, other = rank_test(st.test)
+                    block(st.body, single or s1)
+                    block(st.orelse, single)
+                elif isinstance(st, (ast.For, ast.While)):
+                    block(st.body, single)
+                    block(st.orelse, single)
+                elif isinstance(st, (ast.With,)):
+                    block(st.body, single)
+                elif isinstance(st, ast.Try):
+                    block(st.body, single)
+                    for h in st.handlers:
+                        block(h.body, single)
+                else:
+                    for c in ast.iter_child_nodes(st):
+                        if isinstance(c, ast.expr):
+                            expr_constructs(c, single)
+        block(f.node.body, False)
+        n += 1
+        for c in bad:
+            rep.violation("P3.per-item-reductions", "%s: %s" % (f.fq, norm_text(c)[:70]),
+                          "`%s` reduces the argument over all axes outside a single-item branch: for a stack of items the statistic mixes the "
+                          "items, so item k of the result is not what the single-item call returns" % norm_text(c)[:70], f.where(c))
+        if not bad:
+            rep.ok("P3.per-item-reductions", f.fq, "no all-axes reduction of the stacked argument outside a single-item branch")
+    return n
+
+
 def _is_module_chain(node):
     """numpy.fft / numpy / scipy.fft receivers: a dotted chain of plain names that is not a batch value"""
     while isinstance(node, ast.Attribute):
